@@ -112,6 +112,8 @@ def run(ctx):
     check_fit_3d(ctx)
     from . import c01
     c01.check_filter_dicts(ctx)      # the angle the readers multiply by the distance
+    from . import c13
+    c13.check_cf_interpolate(ctx)    # 'linearly interpolated to the aperture radius, apertures beyond the largest use the largest'
 
 
 MO = 'sedfitter/models.py'
